@@ -508,6 +508,29 @@ def r08_8(ck: Check) -> None:
         else:
             ck.ok("R08.8", construct, "", where)
     ck.expect_count("R08.8", "unordered SELECTs", n, 3)
+    # ... and insertion order is the order of the batch: the row lists handed to executemany are filled by append only
+    w = Writer(ck)
+    from ..engine.walker import MUTATORS
+    m = 0
+    for e in w.execs:
+        if e.parts[0][2] != "executemany" or len(e.term[2]) < 2:
+            continue
+        m += 1
+        rows = e.term[2][1]
+        construct = "write_blocks_to_disk: rows for %r go in in the order they were collected (blocks in batch order, transactions in block order)" % (
+            e.term[2][0][1].split(" values")[0][-40:] if e.term[2][0][0] == "c" else "?")
+        if rows[0] != "new" and not (rows[0] == "comp" and rows[1] == "list"):
+            ck.violated("R08.8", construct, "the rows are passed as %s, not as the list the loop filled: the tables are read back in rowid "
+                        "order without ORDER BY, so a block's transactions come back permuted or split" % show(rows)[:80], e.loc)
+            continue
+        other = [x for x in w.summ.events if x.kind == "call" and x.parts and x.parts[0][0] == "a" and x.parts[0][1] == rows
+                 and x.parts[0][2] in MUTATORS and x.parts[0][2] != "append"]
+        if other:
+            ck.violated("R08.8", construct, "the row list is also changed by .%s(): the tables are read back in rowid order without ORDER BY, so a "
+                        "block's transactions come back permuted or split" % other[0].parts[0][2], other[0].loc)
+        else:
+            ck.ok("R08.8", construct, "", e.loc)
+    ck.expect_count("R08.8", "bulk inserts", m, 4)
 
 
 def r08_9(ck: Check) -> None:
